@@ -9,7 +9,15 @@ mkdir -p "$ROOT/work"
 cd "$ROOT/harness" || exit 2
 # rebuild from /repo's current working tree (path dependencies on /repo/packages/*), hooks enabled
 if ! cargo build --release --features wasmhook >"$ROOT/work/build-$ID.log" 2>&1; then
-  echo "INFRASTRUCTURE: harness build failed (see $ROOT/work/build-$ID.log)" >&2; tail -5 "$ROOT/work/build-$ID.log" >&2; exit 2
+  # the hooks into the semantic engine's internal API (C05-C07) may not build against a changed tree: the other
+  # checks only use beff's public entry points and are built without them
+  case "$ID" in
+    C05|C06|C07) echo "INFRASTRUCTURE: harness build failed (see $ROOT/work/build-$ID.log)" >&2; tail -5 "$ROOT/work/build-$ID.log" >&2; exit 2 ;;
+  esac
+  if ! cargo build --release --no-default-features --features wasmhook >"$ROOT/work/build-$ID.log" 2>&1; then
+    echo "INFRASTRUCTURE: harness build failed (see $ROOT/work/build-$ID.log)" >&2; tail -5 "$ROOT/work/build-$ID.log" >&2; exit 2
+  fi
+  echo "NOTE: the engine hooks do not build against this tree; $ID runs on a harness built without them" >&2
 fi
 cd "$ROOT"
 if [ "$1" = "--replay" ]; then
